@@ -1040,6 +1040,26 @@ PBT_PROPERTY(serve)
     cp.startDelayMs = static_cast<int>(src.range(0, 3));
     if (src.coin(1, 5)) cp.readDelayMs = static_cast<int>(src.range(1, 60));
     auto rows = src.rows(8, 8, 0, (1 << 20) - 1);
+    // 1 connection in 6: a dense pipeline of quick requests whose handlers finish at (almost) the same
+    // instant on different workers - the schedule in which two responses would interleave on the wire
+    const bool dense = src.coin(1, 6);
+    if (dense)
+    {
+      c.label("dense pipeline of same-duration requests");
+      std::size_t want = static_cast<std::size_t>(src.range(4, 8));
+      while (rows.size() < want) rows.push_back(pbt::Row{0, 0, 0, 0, 0, 0, 0, 0});
+      int dur = static_cast<int>(src.range(0, 3));
+      for (std::size_t k = 0; k < rows.size(); ++k)
+      {
+        pbt::Row &r = rows[k];
+        r[0] = (r[0] % 2) ? 80 : r[0] % 20;            // GET/HEAD on a handler route
+        r[2] = (r[2] % 3 == 0) ? SetContentMove : SetContent;
+        r[3] = r[3] % 5;                                // 200/201/202
+        r[4] = (r[4] % 3) * 10 + 4 + (r[4] / 10 % 1000) * 10; // 100 B - 10 KiB
+        r[5] = dur ? dur * 4 + 1 : 0;                    // every handler: the same duration
+        r[6] = 1 | (7 << 2) | (r[6] & (3 << 7)) | (1 << 10);   // pipelined, keep-alive, HTTP/1.1
+      }
+    }
     bool closed = false;
     for (std::size_t ri = 0; ri < rows.size() && !closed; ++ri)
     {
